@@ -227,3 +227,23 @@ Theorem C13_withdrawn_stays_partial : forall s i, op_phase (n_ops s i) = Exiting
   forall v c t, step s (LObserve i v c t) = None.
 Proof. exact exiting_idle_is_silent. Qed.
 Print Assumptions C13_withdrawn_stays_partial.
+
+(* "the toggle follows the verdict whenever the decision does not raise" is false of the code as a
+   whole: the log line of the equal-priority branch formats EVERY record (also expired ones and one's own)
+   and int(priority) can raise there, after clean() and before turn_to() ... *)
+Theorem C13_toggle_follows_verdict_refuted :
+  let oint := fun _ : string => None in
+  let odate := fun _ : string => Some 0 in
+  let c := mkCfg "me" 0 60 "default" true in
+  (exists o, process oint odate c (Some false) (Some "default") (Some log_abort_status) 1000000 = POk (Some o)
+             /\ o_toggle o = Some true) /\
+  run_event oint odate c (Some false) (Some "default") (Some log_abort_status) 1000000 0 None None
+  = ([ObsClean ["gone"]], Some TypeError).
+Proof. exact log_abort_witness. Qed.
+Print Assumptions C13_toggle_follows_verdict_refuted.
+
+(* ... and cannot happen when every priority in the object is a number (the property's record contents) *)
+Theorem C13_toggle_follows_verdict_partial : forall oint c t ps,
+  Forall (fun p => num_of (p_prio p) <> None) ps -> log_raises oint c t ps = None.
+Proof. exact log_raises_none_numeric. Qed.
+Print Assumptions C13_toggle_follows_verdict_partial.
